@@ -3,9 +3,12 @@ Proofs about the whole-routine model of `PathSimplifier::perturbPath` (`ppBody` 
 `perturbPath` of `OmplModel.Model.PathOpsWhole`; C++: src/ompl/geometric/src/PathSimplifier.cpp,
 `perturbPath` l. 495-711, `selectAlongPath` l. 1023-1057).
 
-Everything up to and including part 4a holds for EVERY environment `E : PpEnv σ α γ` (every number
-type, every objective, every `checkMotion`/`distance`/`interpolate` oracle, every script `hn`/`samp`):
-no arithmetic or order law is used, so the statements hold for the `Float` instance the driver runs.
+Every theorem is for EVERY environment `E : PpEnv σ α γ` (every number type, every objective, every
+`checkMotion`/`distance`/`interpolate` oracle, every script `hn`/`samp`), every step bound and path.
+Parts 1, 2, `perturbPath_steps`/`_false_unchanged`, the `none` analysis (`…_indices_partial`) and 4a use
+NO arithmetic or order law, so they hold for the `Float` instance the driver runs.  Whatever needs more
+has it as an explicit, named hypothesis (`PpMonotone E`, `PpCutsAdditive E`, `NumOrderLaws E.N`, the
+additive-objective hypotheses of 4b) and is called `…_partial` / `…_of_laws`.
 
 Contents
 1. `selectAlong_spec`         what a successful `selectAlongPath` guarantees (checked indexing only);
@@ -18,15 +21,18 @@ Contents
    `perturbPath_keeps_first_partial`, `perturbPath_keeps_last_partial`,
    `perturbPath_only_validated_partial`  (need `PpMonotone E`; `PpDerived` = input motion | validated |
                               prefix cut | suffix cut);
-   `ppBody_none_sources`, `selectAlong_none_sources`  (`perturbPath_indices_partial`): where `none` comes from;
+   `perturbPath_indices_partial`, `perturbPath_indices_mono`, `ppBody_none_sources`, `ppAlongCost_isSome`,
+   `selectAlong_none_sources`  where `none` (= an out-of-range access in the C++) can come from;
 4. `perturb_never_worse_own_objective` (a) law-free: the objective's own comparison says the new
    stretch is better than the one it replaces; (b) `PpAcc.pathLen_le`, `perturbPath_never_worse_partial`:
    over an ordered additive commutative monoid with additive cuts the path cost does not increase;
-5. `ppMonotone_of_laws`       `PpMonotone E` from explicit order laws on `E.N` (see there).
+5. `NumOrderLaws`, `selectAlong_mono`, `ppMonotone_of_laws`, `perturbPath_spec_of_laws`
+                              `PpMonotone E` from explicit order laws on `E.N` (see there).
 -/
 import OmplModel.Model.PathOpsWhole
 import OmplModel.Proofs.PathOpsSplice2
 import OmplModel.Proofs.PathOpsSpliceLen
+import Mathlib.Algebra.Order.Monoid.Defs
 
 namespace OmplModel.PathOps
 
@@ -79,7 +85,7 @@ theorem selectAlong_selFacts (N : NumOps α) (interp : σ → σ → α → σ) 
   simpa only [SelFacts, List.size_toArray, List.getElem?_toArray] using this
 
 /-- `dists` and `states` have the same size in `ppBody` -/
-theorem cumDistsG_length (N : NumOps α) (dist : σ → σ → α) (l : List σ) :
+theorem pp_cumDistsG_length (N : NumOps α) (dist : σ → σ → α) (l : List σ) :
     (cumDistsG N dist l).length = l.length := by
   cases l with
   | nil => rfl
@@ -233,8 +239,9 @@ theorem perturbPath_steps {E : PpEnv σ α γ} {ms me : Nat} {path out : List σ
 
 `ppSplice_spec` needs `posB ≤ posA` and `idxA → posB < posA` (see the header of
 `OmplModel.Proofs.PathOpsSplice2`).  They say that `selectAlongPath` is monotone in `distTo`; this rests
-on order laws of `double` comparison/arithmetic and on `dists` being non-decreasing, so it is an
-EXPLICIT hypothesis here (and is derived from explicit laws in part 5). -/
+on order laws of `double` comparison/arithmetic, so it is an EXPLICIT hypothesis here.  Part 5 derives it
+from explicit laws (total preorder, monotone subtraction, `stepSize/2`-shift ordered, `dists.back() ≥ 0`;
+that `dists` is non-decreasing turns out not to be needed). -/
 
 /-- "`selectAlongPath` is monotone": for the two calls of one iteration (arguments
 `distTo - stepSize/2`, `distTo + stepSize/2`) that were not skipped by the `continue` of l. 565 -/
@@ -738,5 +745,877 @@ theorem perturbPath_never_worse_partial {E : PpEnv σ α γ} (hm : PpMonotone E)
   exact (perturbPath_steps h).pathLen_le hm hc hid hcomb hlink
 
 end Cost
+
+/-! ## 3 (indices). where `none` can come from
+
+These proofs follow the arithmetic of `ppBody`/`selectAlong` more closely than parts 1-4 (they look at
+how `pick`, `dci[z]`, `dists[get<2>(dci[z])]` are read); nothing above depends on them. -/
+
+theorem ppPickSeg_lt (N : NumOps α) (dci : Array (α × γ × Nat)) :
+    ∀ (fuel : Nat) (cb : α) (z : Nat) (cb' : α) (z' : Nat),
+      ppPickSeg N dci fuel cb z = some (cb', z') → z' < dci.size := by
+  intro fuel
+  induction fuel with
+  | zero => intro cb z cb' z' h; simp [ppPickSeg] at h
+  | succ f ih =>
+    intro cb z cb' z' h
+    rw [ppPickSeg] at h
+    split at h
+    · cases h
+    · next e he =>
+      split at h
+      · exact ih _ _ _ _ h
+      · simp only [Option.some.injEq, Prod.mk.injEq] at h
+        obtain ⟨_, rfl⟩ := h
+        exact (Array.getElem?_eq_some_iff.mp he).1
+
+theorem mem_insertStd_fromRight {β : Type} (comp : β → β → Bool) (val : β) :
+    ∀ (rs acc : List β) (x : β), x ∈ insertStd.fromRight comp val rs acc → x = val ∨ x ∈ rs ∨ x ∈ acc := by
+  intro rs
+  induction rs with
+  | nil => intro acc x h; simpa [insertStd.fromRight] using h
+  | cons e r ih =>
+    intro acc x h
+    rw [insertStd.fromRight] at h
+    split at h
+    · rcases ih _ _ h with h | h | h
+      · exact Or.inl h
+      · exact Or.inr (Or.inl (List.mem_cons_of_mem _ h))
+      · rcases List.mem_cons.mp h with h | h
+        · exact Or.inr (Or.inl (h ▸ List.mem_cons_self))
+        · exact Or.inr (Or.inr h)
+    · simp only [List.mem_append, List.mem_reverse, List.mem_cons] at h
+      rcases h with h | h | h | h
+      · exact Or.inr (Or.inl (List.mem_cons_of_mem _ h))
+      · exact Or.inr (Or.inl (h ▸ List.mem_cons_self))
+      · exact Or.inl h
+      · exact Or.inr (Or.inr h)
+
+theorem mem_insertStd {β : Type} (comp : β → β → Bool) (sorted : List β) (val x : β)
+    (h : x ∈ insertStd comp sorted val) : x = val ∨ x ∈ sorted := by
+  unfold insertStd at h
+  split at h
+  · simpa using h
+  · split at h
+    · simpa using h
+    · rcases mem_insertStd_fromRight comp val _ _ x h with h | h | h
+      · exact Or.inl h
+      · exact Or.inr (List.mem_reverse.mp h)
+      · simp at h
+
+theorem mem_sortStd {β : Type} (comp : β → β → Bool) (l : List β) (x : β) (h : x ∈ sortStd comp l) :
+    x ∈ l := by
+  have : ∀ (l acc : List β), x ∈ l.foldl (insertStd comp) acc → x ∈ acc ∨ x ∈ l := by
+    intro l
+    induction l with
+    | nil => intro acc h; exact Or.inl h
+    | cons v r ih =>
+      intro acc h
+      rcases ih _ h with h | h
+      · rcases mem_insertStd comp acc v x h with h | h
+        · exact Or.inr (h ▸ List.mem_cons_self)
+        · exact Or.inl h
+      · exact Or.inr (List.mem_cons_of_mem _ h)
+  rcases this l [] h with h | h
+  · simp at h
+  · exact h
+
+/-- every entry of `distCostIndices` carries a segment index `< size - 1` -/
+theorem distCostIndices_idx (E : PpEnv σ α γ) (st : List σ) (e : α × γ × Nat)
+    (h : e ∈ distCostIndices E st) : e.2.2 + 1 < st.length := by
+  unfold distCostIndices at h
+  have := mem_sortStd _ _ _ h
+  simp only [List.mem_map] at this
+  obtain ⟨⟨p, i⟩, hp, rfl⟩ := this
+  have := (List.of_mem_zip hp).2
+  simp only [List.mem_range] at this
+  show i + 1 < st.length
+  omega
+
+theorem pp_adj_length : ∀ (l : List σ), (adj l).length = l.length - 1
+  | [] => rfl
+  | [_] => rfl
+  | _ :: b :: r => by simp only [adj, List.length_cons, pp_adj_length (b :: r)]; omega
+
+theorem length_insertStd {β : Type} (comp : β → β → Bool) (sorted : List β) (val : β) :
+    (insertStd comp sorted val).length = sorted.length + 1 := by
+  have hfr : ∀ (rs acc : List β), (insertStd.fromRight comp val rs acc).length = rs.length + acc.length + 1 := by
+    intro rs
+    induction rs with
+    | nil => intro acc; simp [insertStd.fromRight]
+    | cons e r ih =>
+      intro acc
+      rw [insertStd.fromRight]
+      split
+      · rw [ih]; simp only [List.length_cons]; omega
+      · simp only [List.length_append, List.length_reverse, List.length_cons]; omega
+  unfold insertStd
+  split
+  · rfl
+  · split
+    · rfl
+    · rw [hfr]; simp
+
+theorem length_sortStd {β : Type} (comp : β → β → Bool) (l : List β) : (sortStd comp l).length = l.length := by
+  have : ∀ (l acc : List β), (l.foldl (insertStd comp) acc).length = acc.length + l.length := by
+    intro l
+    induction l with
+    | nil => intro acc; rfl
+    | cons v r ih => intro acc; simp only [List.foldl_cons, ih, length_insertStd, List.length_cons]; omega
+  simpa [sortStd] using this l []
+
+theorem distCostIndices_length (E : PpEnv σ α γ) (st : List σ) :
+    (distCostIndices E st).length = st.length - 1 := by
+  simp [distCostIndices, length_sortStd, pp_adj_length]
+
+theorem ppAlong_isSome (O : Obj σ γ) (st : Array σ) :
+    ∀ (n : Nat) (acc : γ) (p : Nat), (n = 0 ∨ p + n < st.size) → ∃ r, ppAlong O st n acc p = some r := by
+  intro n
+  induction n with
+  | zero => intro acc p _; exact ⟨acc, rfl⟩
+  | succ n ih =>
+    intro acc p h
+    have h' : p + (n + 1) < st.size := by omega
+    rw [ppAlong, Array.getElem?_eq_getElem (show p < st.size by omega),
+      Array.getElem?_eq_getElem (show p + 1 < st.size by omega)]
+    exact ih _ _ (by omega)
+
+/-- `alongPath` never reads out of range (no law, no monotonicity: for `posA < start` the loop does not run) -/
+theorem ppAlongCost_isSome (E : PpEnv σ α γ) (st : List σ) (posB : Nat) (idxB : Bool) (before : σ)
+    (posA : Nat) (idxA : Bool) (after : σ) (hB : SelFacts E.interp st posB idxB before)
+    (hA : SelFacts E.interp st posA idxA after) :
+    ∃ along, ppAlongCost E st posB idxB before posA idxA after = some along := by
+  unfold ppAlongCost
+  simp only [List.getElem?_toArray]
+  split
+  · exact ⟨_, rfl⟩
+  · have hf : ∃ f, (if idxB = true then some E.O.identity
+        else Option.map (fun x => E.O.motion before x) st[posB + 1]?) = some f := by
+      cases hi : idxB
+      · rw [List.getElem?_eq_getElem (hB.2.2 hi).1]; exact ⟨_, rfl⟩
+      · exact ⟨_, rfl⟩
+    have hl : ∃ l, (if idxA = true then some E.O.identity
+        else Option.map (fun x => E.O.motion x after) st[posA]?) = some l := by
+      cases hi : idxA
+      · rw [List.getElem?_eq_getElem hA.1]; exact ⟨_, rfl⟩
+      · exact ⟨_, rfl⟩
+    obtain ⟨f, hf⟩ := hf
+    obtain ⟨l, hl⟩ := hl
+    rw [hf, hl]
+    simp only
+    have hst : (if idxB = true then posB else posB + 1) < st.length := by
+      cases hi : idxB
+      · simpa using (hB.2.2 hi).1
+      · simpa using hB.1
+    obtain ⟨r, hr⟩ := ppAlong_isSome E.O st.toArray (posA - if idxB = true then posB else posB + 1) f
+      (if idxB = true then posB else posB + 1) (by
+        have := hA.1
+        simp only [List.size_toArray]
+        omega)
+    rw [hr]
+    exact ⟨_, rfl⟩
+
+theorem ppBody_none_sources (E : PpEnv σ α γ) (st : List σ) (hnk : α) (smp : σ)
+    (h : ppBody E st hnk smp = none) :
+    st.length ≤ 1 ∨
+    (∃ cb, ppPickSeg E.N (distCostIndices E st).toArray ((distCostIndices E st).toArray.size + 1) cb 0 = none) ∨
+    (∃ d thr, selectAlong E.N E.interp (cumDistsG E.N E.dist st).toArray st.toArray d thr = none) ∨
+    (∃ posB idxB before posA idxA after new, PpCalls E st posB idxB before posA idxA after ∧
+      ¬ (idxB = true ∧ idxA = true ∧ posB = posA) ∧
+      ppSplice st posB idxB posA idxA before new after = none) := by
+  have hds : (cumDistsG E.N E.dist st).toArray.size = st.length := by
+    rw [List.size_toArray, pp_cumDistsG_length]
+  have hdci : (distCostIndices E st).toArray.size = st.length - 1 := by
+    rw [List.size_toArray, distCostIndices_length]
+  unfold ppBody at h
+  simp only [] at h
+  split at h
+  · -- `dists.back()` of an empty vector
+    next hb =>
+    rw [Array.getElem?_eq_none_iff] at hb
+    exact Or.inl (by omega)
+  split at h
+  · -- no segment picked
+    next hp =>
+    split at hp
+    · rw [Option.map_eq_none_iff, Array.getElem?_eq_none_iff] at hp
+      exact Or.inl (by omega)
+    · exact Or.inr (Or.inl ⟨_, hp⟩)
+  next cb z hp =>
+  have hz : z < (distCostIndices E st).toArray.size := by
+    split at hp
+    · simp only [Option.map_eq_some_iff, Prod.mk.injEq] at hp
+      obtain ⟨e, he, _, rfl⟩ := hp
+      have := (Array.getElem?_eq_some_iff.mp he).1
+      omega
+    · exact ppPickSeg_lt _ _ _ _ _ _ _ hp
+  split at h
+  · next hn =>
+    rw [Array.getElem?_eq_none_iff] at hn
+    omega
+  next e he =>
+  split at h
+  · next hn =>
+    rw [Array.getElem?_eq_none_iff] at hn
+    have hmem : e ∈ distCostIndices E st := by
+      obtain ⟨hz', rfl⟩ := Array.getElem?_eq_some_iff.mp he
+      simp
+    have := distCostIndices_idx E st e hmem
+    omega
+  split at h
+  · next hP hB hA =>
+    have hcalls : PpCalls E st _ _ _ _ _ _ := ⟨_, _, _, ‹_›, rfl, hB, hA⟩
+    split at h
+    · cases h
+    next hne =>
+    split at h
+    · next hcm =>
+      simp only [Bool.and_eq_true, beq_iff_eq] at hcm hne
+      split at h
+      · next hal =>
+        obtain ⟨al, hal'⟩ := ppAlongCost_isSome E st _ _ _ _ _ _ (selectAlong_selFacts _ _ _ _ _ _ hB)
+          (selectAlong_selFacts _ _ _ _ _ _ hA)
+        have : ppAlongCost E st _ _ _ _ _ _ = none := hal
+        rw [this] at hal'
+        cases hal'
+      split at h
+      · cases h
+      split at h
+      · cases h
+      · next hsp =>
+        exact Or.inr (Or.inr (Or.inr ⟨_, _, _, _, _, _, _, hcalls, fun ⟨a, b, c⟩ => hne ⟨⟨a, b⟩, c⟩, hsp⟩))
+    · cases h
+  · -- one of the three `selectAlongPath` calls failed
+    next hx =>
+    refine Or.inr (Or.inr (Or.inl ?_))
+    apply Classical.byContradiction
+    intro hcon
+    have hs : ∀ d thr, ∃ p i s, selectAlong E.N E.interp (cumDistsG E.N E.dist st).toArray st.toArray d thr =
+        some (p, i, s) := by
+      intro d thr
+      cases hr : selectAlong E.N E.interp (cumDistsG E.N E.dist st).toArray st.toArray d thr with
+      | none => exact absurd ⟨d, thr, hr⟩ hcon
+      | some r => exact ⟨r.1, r.2.1, r.2.2, rfl⟩
+    apply hx <;> exact (hs _ _).choose_spec.choose_spec.choose_spec
+
+theorem walkDownG_le (N : NumOps α) (ds : Array α) (d : α) : ∀ p, selectAlong.walkDownG N ds d p ≤ p := by
+  intro p
+  induction p with
+  | zero => simp [selectAlong.walkDownG]
+  | succ k ih =>
+    rw [selectAlong.walkDownG]
+    split
+    · split
+      · omega
+      · exact Nat.le_refl _
+    · exact Nat.le_refl _
+
+theorem walkDownG_eq_self (N : NumOps α) (ds : Array α) (d : α) (k : Nat) (dk : α)
+    (h : selectAlong.walkDownG N ds d (k + 1) = k + 1) (hk : ds[k + 1]? = some dk) : N.lt d dk = false := by
+  rw [selectAlong.walkDownG, hk] at h
+  simp only at h
+  split at h
+  · have := walkDownG_le N ds d k
+    omega
+  · exact (Bool.not_eq_true _).mp ‹¬ _›
+
+theorem pp_lowerBoundG_le (N : NumOps α) (ds : List α) (x : α) : lowerBoundG N ds x ≤ ds.length :=
+  (List.takeWhile_sublist _).length_le
+
+/-- `selectAlongPath` on equally long non-empty `dists`/`states` goes out of range in exactly one situation:
+the walk-down stopped at the LAST vertex without snapping (then `states[pos + 1]` is read).  For the clamped
+`distTo` this means: not `< dists.back()`, and neither `dists.back() - distTo ≤ threshold` nor
+`distTo - dists.back() < threshold` — impossible for `distTo ≤ dists.back()`, `threshold ≥ 0` in exact
+arithmetic; it needs a NaN or a negative threshold. -/
+theorem selectAlong_none_sources (N : NumOps α) (interp : σ → σ → α → σ) (ds : Array α) (st : Array σ)
+    (d thr : α) (hsz : ds.size = st.size) (hpos : 0 < st.size)
+    (h : selectAlong N interp ds st d thr = none) :
+    ∃ d' dl, 1 < st.size ∧ ds[st.size - 1]? = some dl ∧ N.le (N.sub dl d') thr = false ∧
+      N.lt d' dl = false ∧ N.lt (N.sub d' dl) thr = false := by
+  unfold selectAlong at h
+  split at h
+  · next hb => rw [Array.getElem?_eq_none_iff] at hb; omega
+  extract_lets d' lb pos at h
+  have hlb : lb ≤ ds.size := by
+    have := pp_lowerBoundG_le N ds.toList d'
+    simpa using this
+  have hp : pos < ds.size := by
+    show (if lb = ds.size then ds.size - 1 else lb) < ds.size
+    split <;> omega
+  split at h
+  · next hn => rw [Array.getElem?_eq_none_iff] at hn; omega
+  next dp hdp =>
+  extract_lets walk at h
+  by_cases hc : (pos = 0 || N.le (N.sub dp d') thr) = true
+  · have hw : walk = (pos, true) := if_pos hc
+    rw [hw] at h
+    simp only [if_true, Option.map_eq_none_iff, Array.getElem?_eq_none_iff] at h
+    omega
+  · have hw : walk = (selectAlong.walkDownG N ds d' pos, match ds[selectAlong.walkDownG N ds d' pos]? with
+        | some d => N.lt (N.sub d' d) thr
+        | none => false) := if_neg hc
+    have hle := walkDownG_le N ds d' pos
+    generalize hq : selectAlong.walkDownG N ds d' pos = q at hw hle
+    rw [hw] at h
+    simp only [Bool.or_eq_true, decide_eq_true_eq, not_or, Bool.not_eq_true] at hc
+    obtain ⟨dq, hdq⟩ : ∃ dq, ds[q]? = some dq := ⟨_, Array.getElem?_eq_getElem (by omega)⟩
+    obtain ⟨sq, hsq⟩ : ∃ sq, st[q]? = some sq := ⟨_, Array.getElem?_eq_getElem (by omega)⟩
+    simp only [hdq, hsq] at h
+    split at h
+    · simp at h
+    · next hsnap =>
+      have hq1 : ¬ (q + 1 < st.size) := by
+        intro hq
+        obtain ⟨d1, hd1⟩ : ∃ d1, ds[q + 1]? = some d1 := ⟨_, Array.getElem?_eq_getElem (by omega)⟩
+        obtain ⟨s1, hs1⟩ : ∃ s1, st[q + 1]? = some s1 := ⟨_, Array.getElem?_eq_getElem hq⟩
+        simp [hd1, hs1] at h
+      have hqp : q = pos := by omega
+      have hps : pos = st.size - 1 := by omega
+      subst hqp
+      rw [hdp, Option.some.injEq] at hdq
+      subst hdq
+      refine ⟨d', dp, by omega, by rw [← hps]; exact hdp, hc.2, ?_, by simpa using hsnap⟩
+      obtain ⟨k, hk⟩ : ∃ k, pos = k + 1 := ⟨pos - 1, by have := hc.1; omega⟩
+      rw [hk] at hq hdp
+      exact walkDownG_eq_self N ds d' k dp hq hdp
+
+/-- the loop fails only if the body fails on a vector reached by accepted iterations -/
+theorem ppLoop_none (E : PpEnv σ α γ) (maxEmpty : Nat) :
+    ∀ (fuel i nochange k : Nat) (st : List σ) (res : Bool),
+      ppLoop E maxEmpty fuel i nochange k st res = none →
+      ∃ st' i' k', PpAcceptedStar E st st' ∧ ppBody E st' (E.hn i') (E.samp k') = none := by
+  intro fuel
+  induction fuel with
+  | zero => intro i nc k st res h; simp [ppLoop] at h
+  | succ f ih =>
+    intro i nc k st res h
+    rw [ppLoop] at h
+    split at h
+    · split at h
+      · next hb => exact ⟨st, _, _, .refl _, hb⟩
+      · exact ih _ _ _ _ _ h
+      · next st1 hb =>
+        obtain ⟨st', i', k', hs, hn⟩ := ih _ _ _ _ _ h
+        exact ⟨st', i', k', PpAcceptedStar.head (ppBody_accepted hb) hs, hn⟩
+    · cases h
+
+/-- (3, indices) `perturbPath` returns `none` (= the C++ would index a vector out of range) only if, on
+some vector `st` reached by accepted iterations, the body hits one of the listed sources -/
+theorem perturbPath_indices_partial {E : PpEnv σ α γ} {ms me : Nat} {path : List σ}
+    (h : perturbPath E ms me path = none) :
+    ∃ st, PpAcceptedStar E path st ∧
+      (st.length ≤ 1 ∨
+      (∃ cb, ppPickSeg E.N (distCostIndices E st).toArray ((distCostIndices E st).toArray.size + 1) cb 0 = none) ∨
+      (∃ d thr, selectAlong E.N E.interp (cumDistsG E.N E.dist st).toArray st.toArray d thr = none) ∨
+      (∃ posB idxB before posA idxA after new, PpCalls E st posB idxB before posA idxA after ∧
+        ¬ (idxB = true ∧ idxA = true ∧ posB = posA) ∧
+        ppSplice st posB idxB posA idxA before new after = none)) := by
+  obtain ⟨st, i, k, hs, hn⟩ := ppLoop_none E _ _ _ _ _ _ _ h
+  exact ⟨st, hs, ppBody_none_sources E st _ _ hn⟩
+
+theorem PpCalls.selFacts {E : PpEnv σ α γ} {st : List σ} {posB : Nat} {idxB : Bool} {before : σ}
+    {posA : Nat} {idxA : Bool} {after : σ} (h : PpCalls E st posB idxB before posA idxA after) :
+    SelFacts E.interp st posB idxB before ∧ SelFacts E.interp st posA idxA after := by
+  obtain ⟨_, _, _, _, _, hB, hA⟩ := h
+  exact ⟨selectAlong_selFacts _ _ _ _ _ _ hB, selectAlong_selFacts _ _ _ _ _ _ hA⟩
+
+/-- with a monotone `selectAlongPath` the splice never goes out of range -/
+theorem ppBody_none_sources_mono {E : PpEnv σ α γ} (hm : PpMonotone E) (st : List σ) (hnk : α) (smp : σ)
+    (h : ppBody E st hnk smp = none) :
+    st.length ≤ 1 ∨
+    (∃ cb, ppPickSeg E.N (distCostIndices E st).toArray ((distCostIndices E st).toArray.size + 1) cb 0 = none) ∨
+    (∃ d thr, selectAlong E.N E.interp (cumDistsG E.N E.dist st).toArray st.toArray d thr = none) := by
+  rcases ppBody_none_sources E st hnk smp h with h | h | h | ⟨posB, idxB, before, posA, idxA, after, new, hc, hne, hsp⟩
+  · exact Or.inl h
+  · exact Or.inr (Or.inl h)
+  · exact Or.inr (Or.inr h)
+  · obtain ⟨hBA, hlt⟩ := hm _ _ _ _ _ _ _ hc hne
+    have hA := hc.selFacts.2
+    have hr : posA + (if idxA then 0 else 1) < st.length := by
+      cases hi : idxA
+      · simpa using (hA.2.2 hi).1
+      · simpa using hA.1
+    obtain ⟨out, ho, _⟩ := ppSplice_spec st posB posA idxB idxA before new after hBA hr hlt
+    rw [hsp] at ho
+    cases ho
+
+theorem perturbPath_indices_mono {E : PpEnv σ α γ} (hm : PpMonotone E) {ms me : Nat} {path : List σ}
+    (h : perturbPath E ms me path = none) :
+    ∃ st, PpAcceptedStar E path st ∧
+      (st.length ≤ 1 ∨
+      (∃ cb, ppPickSeg E.N (distCostIndices E st).toArray ((distCostIndices E st).toArray.size + 1) cb 0 = none) ∨
+      (∃ d thr, selectAlong E.N E.interp (cumDistsG E.N E.dist st).toArray st.toArray d thr = none)) := by
+  obtain ⟨st, i, k, hs, hn⟩ := ppLoop_none E _ _ _ _ _ _ _ h
+  exact ⟨st, hs, ppBody_none_sources_mono hm st _ _ hn⟩
+/-! ## 5. `PpMonotone` from explicit order laws (3b)
+
+Like the previous part this follows the arithmetic of `selectAlong` closely (`selectAlong_char`); nothing in
+parts 1-4 depends on it. -/
+
+/-- order laws used for the monotonicity of `selectAlongPath`: `<=` is a total preorder, `<` is its strict
+part, subtraction is monotone in its first and antitone in its second argument.  They hold in `ℚ`/`ℝ`, and for
+doubles as long as no NaN/overflow occurs (rounding is monotone); they do NOT hold for all doubles (NaN) -/
+structure NumOrderLaws (N : NumOps α) : Prop where
+  le_refl : ∀ a, N.le a a = true
+  le_trans : ∀ a b c, N.le a b = true → N.le b c = true → N.le a c = true
+  le_total : ∀ a b, N.le a b = true ∨ N.le b a = true
+  lt_iff_not_le : ∀ a b, N.lt a b = true ↔ N.le b a = false
+  sub_le_sub_left : ∀ a b c, N.le a b = true → N.le (N.sub c b) (N.sub c a) = true
+  sub_le_sub_right : ∀ a b c, N.le a b = true → N.le (N.sub a c) (N.sub b c) = true
+
+namespace NumOrderLaws
+variable {N : NumOps α} (L : NumOrderLaws N)
+include L
+
+theorem not_lt {a b : α} : N.lt a b = false ↔ N.le b a = true := by
+  have := L.lt_iff_not_le a b
+  cases h1 : N.lt a b <;> cases h2 : N.le b a <;> simp_all
+
+theorem lt_irrefl (a : α) : N.lt a a = false := L.not_lt.mpr (L.le_refl a)
+
+theorem lt_of_lt_of_le {a b c : α} (h1 : N.lt a b = true) (h2 : N.le b c = true) : N.lt a c = true := by
+  rw [L.lt_iff_not_le] at h1 ⊢
+  cases h : N.le c a
+  · rfl
+  · rw [L.le_trans b c a h2 h] at h1; cases h1
+
+theorem lt_of_le_of_lt {a b c : α} (h1 : N.le a b = true) (h2 : N.lt b c = true) : N.lt a c = true := by
+  rw [L.lt_iff_not_le] at h2 ⊢
+  cases h : N.le c a
+  · rfl
+  · rw [L.le_trans c a b h h1] at h2; cases h2
+
+theorem le_of_lt {a b : α} (h : N.lt a b = true) : N.le a b = true := by
+  rw [L.lt_iff_not_le] at h
+  rcases L.le_total a b with h' | h'
+  · exact h'
+  · rw [h'] at h; cases h
+
+theorem lt_asymm {a b : α} (h : N.lt a b = true) : N.lt b a = false :=
+  L.not_lt.mpr (L.le_of_lt h)
+
+end NumOrderLaws
+
+/-- the clamp at the start of `selectAlongPath` -/
+def selClamp (N : NumOps α) (back d : α) : α :=
+  if N.lt d N.zero then N.zero else if N.lt back d then back else d
+
+/-- `pos` after the `lower_bound` -/
+def selPos0 (N : NumOps α) (ds : Array α) (d' : α) : Nat :=
+  if lowerBoundG N ds.toList d' = ds.size then ds.size - 1 else lowerBoundG N ds.toList d'
+
+theorem NumOrderLaws.clamp_mono {N : NumOps α} (L : NumOrderLaws N) {back d1 d2 : α}
+    (h0 : N.le N.zero back = true) (h : N.le d1 d2 = true) :
+    N.le (selClamp N back d1) (selClamp N back d2) = true := by
+  unfold selClamp
+  by_cases a1 : N.lt d1 N.zero = true
+  · rw [if_pos a1]
+    by_cases a2 : N.lt d2 N.zero = true
+    · rw [if_pos a2]; exact L.le_refl _
+    · rw [if_neg a2]
+      by_cases b2 : N.lt back d2 = true
+      · rw [if_pos b2]; exact h0
+      · rw [if_neg b2]; exact L.not_lt.mp (by simpa using a2)
+  · rw [if_neg a1]
+    have a1' : N.le N.zero d1 = true := L.not_lt.mp (by simpa using a1)
+    have a2 : ¬ N.lt d2 N.zero = true := by
+      intro a2
+      have := L.lt_of_le_of_lt h a2
+      exact a1 this
+    rw [if_neg a2]
+    by_cases b1 : N.lt back d1 = true
+    · rw [if_pos b1, if_pos (L.lt_of_lt_of_le b1 h)]; exact L.le_refl _
+    · rw [if_neg b1]
+      by_cases b2 : N.lt back d2 = true
+      · rw [if_pos b2]; exact L.not_lt.mp (by simpa using b1)
+      · rw [if_neg b2]; exact h
+
+theorem NumOrderLaws.clamp_le_back {N : NumOps α} (L : NumOrderLaws N) {back d : α}
+    (h0 : N.le N.zero back = true) : N.lt back (selClamp N back d) = false := by
+  unfold selClamp
+  split
+  · exact L.not_lt.mpr h0
+  · split
+    · exact L.lt_irrefl _
+    · exact (Bool.not_eq_true _).mp ‹¬ _›
+
+/-- `(pos, index ≥ 0)` of a successful `selectAlongPath`, as a function of the clamped `distTo` -/
+theorem selectAlong_char (N : NumOps α) (interp : σ → σ → α → σ) (ds : Array α) (st : Array σ)
+    (d thr : α) {pos : Nat} {idx : Bool} {s : σ}
+    (h : selectAlong N interp ds st d thr = some (pos, idx, s)) :
+    ∃ back dp, ds[ds.size - 1]? = some back ∧
+      ds[selPos0 N ds (selClamp N back d)]? = some dp ∧
+      ((selPos0 N ds (selClamp N back d) = 0 ∨ N.le (N.sub dp (selClamp N back d)) thr = true) ∧
+          pos = selPos0 N ds (selClamp N back d) ∧ idx = true ∨
+        selPos0 N ds (selClamp N back d) ≠ 0 ∧ N.le (N.sub dp (selClamp N back d)) thr = false ∧
+          pos = selectAlong.walkDownG N ds (selClamp N back d) (selPos0 N ds (selClamp N back d)) ∧
+          ∃ dq, ds[pos]? = some dq ∧ idx = N.lt (N.sub (selClamp N back d) dq) thr) := by
+  unfold selectAlong at h
+  split at h
+  · cases h
+  next back hback =>
+  extract_lets d' lb pos0 at h
+  split at h
+  · cases h
+  next dp hdp =>
+  refine ⟨back, dp, hback, hdp, ?_⟩
+  show (pos0 = 0 ∨ N.le (N.sub dp d') thr = true) ∧ pos = pos0 ∧ idx = true ∨
+    pos0 ≠ 0 ∧ N.le (N.sub dp d') thr = false ∧ pos = selectAlong.walkDownG N ds d' pos0 ∧
+      ∃ dq, ds[pos]? = some dq ∧ idx = N.lt (N.sub d' dq) thr
+  extract_lets walk at h
+  by_cases hc : (pos0 = 0 || N.le (N.sub dp d') thr) = true
+  · have hw : walk = (pos0, true) := if_pos hc
+    rw [hw] at h
+    simp only [if_true, Option.map_eq_some_iff, Prod.mk.injEq] at h
+    obtain ⟨_, _, rfl, rfl, _⟩ := h
+    simp only [Bool.or_eq_true, decide_eq_true_eq] at hc
+    exact Or.inl ⟨hc, rfl, rfl⟩
+  · have hw : walk = (selectAlong.walkDownG N ds d' pos0,
+        match ds[selectAlong.walkDownG N ds d' pos0]? with
+        | some d => N.lt (N.sub d' d) thr
+        | none => false) := if_neg hc
+    simp only [Bool.or_eq_true, decide_eq_true_eq, not_or, Bool.not_eq_true] at hc
+    refine Or.inr ⟨hc.1, hc.2, ?_⟩
+    generalize selectAlong.walkDownG N ds d' pos0 = q at hw
+    generalize hb : (match ds[q]? with
+      | some d => N.lt (N.sub d' d) thr
+      | none => false) = b at hw
+    rw [hw] at h
+    dsimp only at h
+    cases b
+    · simp only [Bool.false_eq_true, if_false] at h
+      split at h
+      · next d0 d1 a b' h0 h1 ha hb' =>
+        simp only [Option.some.injEq, Prod.mk.injEq] at h
+        obtain ⟨rfl, rfl, _⟩ := h
+        rw [h0] at hb
+        exact ⟨rfl, d0, h0, hb.symm⟩
+      · cases h
+    · simp only [if_true, Option.map_eq_some_iff, Prod.mk.injEq] at h
+      obtain ⟨_, _, rfl, rfl, _⟩ := h
+      split at hb
+      · next dq hdq => exact ⟨rfl, dq, hdq, hb.symm⟩
+      · cases hb
+
+/-! ### `lower_bound` and the walk-down loop -/
+
+theorem pp_lowerBoundG_mono (N : NumOps α) (d1 d2 : α) (himp : ∀ x, N.lt x d1 = true → N.lt x d2 = true) :
+    ∀ l : List α, lowerBoundG N l d1 ≤ lowerBoundG N l d2 := by
+  intro l
+  unfold lowerBoundG
+  induction l with
+  | nil => simp
+  | cons x r ih =>
+    simp only [List.takeWhile_cons]
+    by_cases h1 : N.lt x d1 = true
+    · rw [if_pos h1, if_pos (himp x h1)]
+      simp only [List.length_cons]
+      omega
+    · rw [if_neg h1]
+      simp
+
+/-- every entry in front of the lower bound is `< x` -/
+theorem pp_lowerBoundG_lt (N : NumOps α) (d : α) : ∀ (l : List α) (i : Nat) (x : α),
+    i < lowerBoundG N l d → l[i]? = some x → N.lt x d = true := by
+  intro l
+  unfold lowerBoundG
+  induction l with
+  | nil => intro i x h; simp at h
+  | cons y r ih =>
+    intro i x h hx
+    simp only [List.takeWhile_cons] at h
+    by_cases h1 : N.lt y d = true
+    · rw [if_pos h1] at h
+      cases i with
+      | zero => simp only [List.getElem?_cons_zero, Option.some.injEq] at hx; rw [← hx]; exact h1
+      | succ i => exact ih i x (by simpa using h) (by simpa using hx)
+    · rw [if_neg h1] at h
+      simp at h
+
+/-- the entry at the lower bound is not `< x` -/
+theorem pp_lowerBoundG_not_lt (N : NumOps α) (d : α) : ∀ (l : List α) (x : α),
+    l[lowerBoundG N l d]? = some x → N.lt x d = false := by
+  intro l
+  unfold lowerBoundG
+  induction l with
+  | nil => intro x h; simp at h
+  | cons y r ih =>
+    intro x hx
+    simp only [List.takeWhile_cons] at hx
+    by_cases h1 : N.lt y d = true
+    · rw [if_pos h1] at hx
+      exact ih x (by simpa using hx)
+    · rw [if_neg h1] at hx
+      simp only [List.length_nil, List.getElem?_cons_zero, Option.some.injEq] at hx
+      rw [← hx]
+      exact (Bool.not_eq_true _).mp h1
+
+/-- everything the loop walked over is `> distTo` -/
+theorem walkDownG_above (N : NumOps α) (ds : Array α) (d : α) : ∀ (p j : Nat) (x : α),
+    selectAlong.walkDownG N ds d p < j → j ≤ p → ds[j]? = some x → N.lt d x = true := by
+  intro p
+  induction p with
+  | zero => intro j x h1 h2; omega
+  | succ k ih =>
+    intro j x h1 h2 hx
+    rw [selectAlong.walkDownG] at h1
+    split at h1
+    · next dk hk =>
+      split at h1
+      · next hlt =>
+        by_cases hj : j = k + 1
+        · subst hj
+          rw [hk, Option.some.injEq] at hx
+          rw [← hx]; exact hlt
+        · exact ih j x h1 (by omega) hx
+      · omega
+    · omega
+
+/-- where the loop stopped (unless at `0`) the entry is not `> distTo` -/
+theorem walkDownG_stop (N : NumOps α) (ds : Array α) (d : α) : ∀ (p : Nat) (x : α),
+    selectAlong.walkDownG N ds d p ≠ 0 → ds[selectAlong.walkDownG N ds d p]? = some x →
+    N.lt d x = false := by
+  intro p
+  induction p with
+  | zero => intro x h; simp [selectAlong.walkDownG] at h
+  | succ k ih =>
+    intro x h0 hx
+    rw [selectAlong.walkDownG] at h0 hx
+    split at hx
+    · next dk hk =>
+      split at hx
+      · next hlt =>
+        rw [hk] at h0
+        simp only [hlt, if_true] at h0
+        exact ih x h0 hx
+      · next hlt =>
+        rw [hk, Option.some.injEq] at hx
+        rw [← hx]
+        exact (Bool.not_eq_true _).mp hlt
+    · next hk => rw [hk] at hx; cases hx
+
+theorem walkDownG_mono (N : NumOps α) (ds : Array α) (dB dA : α)
+    (himp : ∀ x, N.lt dA x = true → N.lt dB x = true) (pB pA : Nat) (hp : pB ≤ pA) (hsz : pB < ds.size) :
+    selectAlong.walkDownG N ds dB pB ≤ selectAlong.walkDownG N ds dA pA := by
+  by_cases hq : pB ≤ selectAlong.walkDownG N ds dA pA
+  · exact Nat.le_trans (walkDownG_le N ds dB pB) hq
+  · have key : ∀ p, selectAlong.walkDownG N ds dA pA < p → p ≤ pB →
+        selectAlong.walkDownG N ds dB p ≤ selectAlong.walkDownG N ds dA pA := by
+      intro p
+      induction p with
+      | zero => intro h; omega
+      | succ k ih =>
+        intro h1 h2
+        obtain ⟨x, hx⟩ : ∃ x, ds[k + 1]? = some x := ⟨_, Array.getElem?_eq_getElem (by omega)⟩
+        have hlt := himp x (walkDownG_above N ds dA pA (k + 1) x h1 (by omega) hx)
+        rw [selectAlong.walkDownG, hx]
+        simp only [hlt, if_true]
+        by_cases hk : selectAlong.walkDownG N ds dA pA < k
+        · exact ih hk (by omega)
+        · exact Nat.le_trans (walkDownG_le N ds dB k) (by omega)
+    exact key pB (by omega) (Nat.le_refl _)
+
+theorem selPos0_lt (N : NumOps α) (ds : Array α) (d : α) (j : Nat) (x : α)
+    (hj : j < selPos0 N ds d) (hx : ds[j]? = some x) : N.lt x d = true := by
+  have hlb := pp_lowerBoundG_le N ds.toList d
+  rw [Array.length_toList] at hlb
+  refine pp_lowerBoundG_lt N d ds.toList j x ?_ (by rw [Array.getElem?_toList]; exact hx)
+  unfold selPos0 at hj
+  split at hj <;> omega
+
+theorem selPos0_not_lt (N : NumOps α) (ds : Array α) (d back : α) (x : α)
+    (hb : ds[ds.size - 1]? = some back) (hc : N.lt back d = false)
+    (hx : ds[selPos0 N ds d]? = some x) : N.lt x d = false := by
+  unfold selPos0 at hx
+  split at hx
+  · rw [hb, Option.some.injEq] at hx
+    rw [← hx]; exact hc
+  · exact pp_lowerBoundG_not_lt N d ds.toList x (by rw [Array.getElem?_toList]; exact hx)
+
+theorem selPos0_mono (N : NumOps α) (ds : Array α) (d1 d2 : α)
+    (himp : ∀ x, N.lt x d1 = true → N.lt x d2 = true) : selPos0 N ds d1 ≤ selPos0 N ds d2 := by
+  have h1 := pp_lowerBoundG_mono N d1 d2 himp ds.toList
+  have h2 := pp_lowerBoundG_le N ds.toList d2
+  rw [Array.length_toList] at h2
+  unfold selPos0
+  split <;> split <;> omega
+
+/-- `selectAlongPath` is monotone in `distTo` (same `dists`, `states`, `threshold`): the position does not
+decrease, and if the larger `distTo` is snapped to the vertex at which the smaller one ended, the smaller one
+is snapped to it as well -/
+theorem selectAlong_mono {N : NumOps α} (L : NumOrderLaws N) (interp : σ → σ → α → σ) (ds : Array α)
+    (st : Array σ) (dB dA thr back : α) (hback : ds[ds.size - 1]? = some back)
+    (h0 : N.le N.zero back = true) (hd : N.le dB dA = true)
+    {posB : Nat} {idxB : Bool} {sB : σ} {posA : Nat} {idxA : Bool} {sA : σ}
+    (hB : selectAlong N interp ds st dB thr = some (posB, idxB, sB))
+    (hA : selectAlong N interp ds st dA thr = some (posA, idxA, sA)) :
+    posB ≤ posA ∧ (idxA = true → posB = posA → idxB = true) := by
+  obtain ⟨backB, dpB, hbB, hdpB, hcB⟩ := selectAlong_char N interp ds st dB thr hB
+  obtain ⟨backA, dpA, hbA, hdpA, hcA⟩ := selectAlong_char N interp ds st dA thr hA
+  rw [hback, Option.some.injEq] at hbB hbA
+  subst hbB hbA
+  have hle : N.le (selClamp N back dB) (selClamp N back dA) = true := L.clamp_mono h0 hd
+  have hAback : N.lt back (selClamp N back dA) = false := L.clamp_le_back h0
+  generalize selClamp N back dB = dB' at *
+  generalize selClamp N back dA = dA' at *
+  have himp1 : ∀ x, N.lt x dB' = true → N.lt x dA' = true := fun x h => L.lt_of_lt_of_le h hle
+  have himp2 : ∀ x, N.lt dA' x = true → N.lt dB' x = true := fun x h => L.lt_of_le_of_lt hle h
+  have hp0 := selPos0_mono N ds dB' dA' himp1
+  have F1 := selPos0_lt N ds dA'
+  have F2 := selPos0_not_lt N ds dA' back dpA hback hAback hdpA
+  generalize selPos0 N ds dB' = p0B at *
+  generalize selPos0 N ds dA' = p0A at *
+  have hp0Bsz : p0B < ds.size := (Array.getElem?_eq_some_iff.mp hdpB).1
+  have hwB := walkDownG_le N ds dB' p0B
+  rcases hcA with ⟨hsnapA, hposA, hidxA⟩ | ⟨hA0, hAns, hposA, dqA, hdqA, hidxA⟩
+  · -- the larger one is snapped up to its lower bound
+    refine ⟨?_, ?_⟩
+    · rcases hcB with ⟨_, hposB, _⟩ | ⟨_, _, hposB, _⟩ <;> omega
+    · intro _ hpp
+      rcases hcB with ⟨_, _, hidxB⟩ | ⟨hB0, hBns, hposB, _⟩
+      · exact hidxB
+      · exfalso
+        have hpe : p0B = p0A := by omega
+        subst hpe
+        rw [hdpB, Option.some.injEq] at hdpA
+        subst hdpA
+        have hstop : N.lt dB' dpB = false :=
+          walkDownG_stop N ds dB' p0B dpB (by omega) (by rw [← hposB, hpp, hposA]; exact hdpB)
+        have h1 : N.le dA' dB' = true := L.le_trans _ _ _ (L.not_lt.mp F2) (L.not_lt.mp hstop)
+        have h2 := L.sub_le_sub_left dA' dB' dpB h1
+        rcases hsnapA with h | h
+        · exact hB0 h
+        · rw [L.le_trans _ _ _ h2 h] at hBns
+          cases hBns
+  · -- the larger one walked down
+    rcases hcB with ⟨hsnapB, hposB, hidxB⟩ | ⟨hB0, hBns, hposB, dqB, hdqB, hidxB⟩
+    · refine ⟨?_, fun _ _ => hidxB⟩
+      rcases hsnapB with h | h
+      · omega
+      · apply Classical.byContradiction
+        intro hcon
+        have hab := walkDownG_above N ds dA' p0A p0B dpB (by omega) hp0 hdpB
+        by_cases hpe : p0B = p0A
+        · subst hpe
+          rw [hdpB, Option.some.injEq] at hdpA
+          subst hdpA
+          have h2 := L.sub_le_sub_left dB' dA' dpB hle
+          rw [L.le_trans _ _ _ h2 h] at hAns
+          cases hAns
+        · have := F1 p0B dpB (by omega) hdpB
+          rw [L.lt_asymm this] at hab
+          cases hab
+    · have hmono := walkDownG_mono N ds dB' dA' himp2 p0B p0A hp0 hp0Bsz
+      refine ⟨by omega, ?_⟩
+      intro hi hpp
+      subst hpp
+      rw [hdqB, Option.some.injEq] at hdqA
+      subst hdqA
+      rw [hi] at hidxA
+      rw [hidxB]
+      exact L.lt_of_le_of_lt (L.sub_le_sub_right dB' dA' dqB hle) hidxA.symm
+
+/-- every entry of `dists` is non-negative if `distance` is and `+` keeps non-negativity -/
+theorem pp_cumDistsG_nonneg (N : NumOps α) (dist : σ → σ → α) (h0 : N.le N.zero N.zero = true)
+    (hdist : ∀ a b, N.le N.zero (dist a b) = true)
+    (hadd : ∀ a c, N.le N.zero a = true → N.le N.zero c = true → N.le N.zero (N.add a c) = true)
+    (l : List σ) : ∀ x ∈ cumDistsG N dist l, N.le N.zero x = true := by
+  have hgo : ∀ (r : List σ) (acc : α) (prev : σ), N.le N.zero acc = true →
+      ∀ x ∈ cumDistsG.go N dist acc prev r, N.le N.zero x = true := by
+    intro r
+    induction r with
+    | nil =>
+      intro acc prev ha x hx
+      simp only [cumDistsG.go, List.mem_singleton] at hx
+      rw [hx]; exact ha
+    | cons b r ih =>
+      intro acc prev ha x hx
+      simp only [cumDistsG.go, List.mem_cons] at hx
+      rcases hx with rfl | hx
+      · exact ha
+      · exact ih _ _ (hadd _ _ ha (hdist _ _)) x hx
+  cases l with
+  | nil => intro x hx; simp [cumDistsG] at hx
+  | cons a r => exact hgo r _ a h0
+
+/-- (3b) `PpMonotone E` from explicit laws: a total preorder with monotone subtraction (`NumOrderLaws`),
+`distTo - stepSize/2 ≤ distTo + stepSize/2`, `dists.back() ≥ 0`.  No condition on the threshold. -/
+theorem ppMonotone_of_laws (E : PpEnv σ α γ) (L : NumOrderLaws E.N)
+    (hhalf : ∀ x, E.N.le (E.N.sub x (E.N.div E.stepSize E.N.two))
+      (E.N.add x (E.N.div E.stepSize E.N.two)) = true)
+    (hnn : ∀ (st : List σ) (back : α),
+      (cumDistsG E.N E.dist st).toArray[(cumDistsG E.N E.dist st).toArray.size - 1]? = some back →
+      E.N.le E.N.zero back = true) :
+    PpMonotone E := by
+  intro st posB idxB before posA idxA after ⟨distTo, thr, back, hback, _, hB, hA⟩ hne
+  obtain ⟨h1, h2⟩ := selectAlong_mono L E.interp _ _ _ _ thr back hback (hnn st back hback)
+    (hhalf distTo) hB hA
+  refine ⟨h1, fun hi => ?_⟩
+  rcases Nat.lt_or_ge posB posA with h | h
+  · exact h
+  · exact absurd ⟨h2 hi (by omega), hi, by omega⟩ hne
+
+/-- the same with `dists.back() ≥ 0` derived from a non-negative `distance` -/
+theorem ppMonotone_of_laws' (E : PpEnv σ α γ) (L : NumOrderLaws E.N)
+    (hhalf : ∀ x, E.N.le (E.N.sub x (E.N.div E.stepSize E.N.two))
+      (E.N.add x (E.N.div E.stepSize E.N.two)) = true)
+    (hdist : ∀ a b, E.N.le E.N.zero (E.dist a b) = true)
+    (hadd : ∀ a c, E.N.le E.N.zero a = true → E.N.le E.N.zero c = true →
+      E.N.le E.N.zero (E.N.add a c) = true) :
+    PpMonotone E :=
+  ppMonotone_of_laws E L hhalf fun st back hb =>
+    pp_cumDistsG_nonneg E.N E.dist (L.le_refl _) hdist hadd st back
+      (List.mem_of_getElem? (by rw [List.getElem?_toArray] at hb; exact hb))
+
+/-- the laws are satisfiable (exact integer arithmetic) -/
+example : NumOrderLaws (α := Int)
+    { add := (· + ·), sub := (· - ·), mul := (· * ·), div := (· / ·), lt := fun a b => decide (a < b),
+      le := fun a b => decide (a ≤ b), zero := 0, two := 2, negOne := -1, eps := 0 } where
+  le_refl := by intro a; simp
+  le_trans := by intro a b c; simp only [decide_eq_true_eq]; omega
+  le_total := by intro a b; simp only [decide_eq_true_eq]; omega
+  lt_iff_not_le := by intro a b; simp only [decide_eq_true_eq, decide_eq_false_iff_not]; omega
+  sub_le_sub_left := by intro a b c; simp only [decide_eq_true_eq]; omega
+  sub_le_sub_right := by intro a b c; simp only [decide_eq_true_eq]; omega
+
+/-- parts 3 and 5 together: ends kept and only validated motions, from the explicit laws -/
+theorem perturbPath_spec_of_laws (E : PpEnv σ α γ) (L : NumOrderLaws E.N)
+    (hhalf : ∀ x, E.N.le (E.N.sub x (E.N.div E.stepSize E.N.two))
+      (E.N.add x (E.N.div E.stepSize E.N.two)) = true)
+    (hnn : ∀ (st : List σ) (back : α),
+      (cumDistsG E.N E.dist st).toArray[(cumDistsG E.N E.dist st).toArray.size - 1]? = some back →
+      E.N.le E.N.zero back = true)
+    {ms me : Nat} {path out : List σ} {r : Bool} (h : perturbPath E ms me path = some (out, r)) :
+    out.head? = path.head? ∧ out.getLast? = path.getLast? ∧ ∀ p ∈ adj out, PpDerived E path p :=
+  have hm := ppMonotone_of_laws E L hhalf hnn
+  ⟨perturbPath_keeps_first_partial hm h, perturbPath_keeps_last_partial hm h,
+    perturbPath_only_validated_partial hm h⟩
+
+/-! ## non-vacuity: an accepted iteration on a concrete environment
+
+(integers on a line, fractions in per-mille, a maximising sum-of-squares objective; evaluated by the
+kernel — adjust the expected vector if the arithmetic of `ppBody` is corrected) -/
+
+private def toyN : NumOps Int :=
+  { add := (· + ·), sub := (· - ·), mul := (· * ·), div := fun a b => a * 1000 / b,
+    lt := fun a b => decide (a < b), le := fun a b => decide (a ≤ b), zero := 0, two := 2000,
+    negOne := -1, eps := 0 }
+
+private def toyE : PpEnv Int Int Int :=
+  { N := toyN
+    O := { identity := 0, combine := (· + ·), motion := fun a b => (a - b) * (a - b),
+           better := fun a b => decide (a > b) }
+    cm := fun _ _ => true
+    dist := fun a b => (a - b).natAbs
+    interp := fun a b t => a + (b - a) * t / 1000
+    hn := fun _ => 0
+    samp := fun _ => 1000
+    stepSize := 20
+    snap := 0 }
+
+example : ∃ st', PpAccepted toyE [0, 50, 300] st' :=
+  ⟨[0, 50, 290, 319, 300], ppBody_accepted (hnk := 0) (smp := 1000) (by rfl)⟩
+
+example : ∃ out, perturbPath toyE 1 1 [0, 50, 300] = some (out, true) := ⟨_, by rfl⟩
 
 end OmplModel.PathOps
